@@ -211,6 +211,9 @@ func (tp *TableParser) parseTableColumns(cols []tableColXML) []float64 {
 		repeat := 1
 		if col.NumberRepeated != "" {
 			if r, err := strconv.Atoi(col.NumberRepeated); err == nil && r > 0 {
+				if r > maxTableColumns {
+					r = maxTableColumns
+				}
 				repeat = r
 			}
 		}
@@ -262,6 +265,9 @@ func (tp *TableParser) parseCell(cell tableCellXML) ParsedTableCell {
 	// Parse column span
 	if cell.NumberColumnsSpanned != "" {
 		if span, err := strconv.Atoi(cell.NumberColumnsSpanned); err == nil && span > 0 {
+			if span > maxTableColumns {
+				span = maxTableColumns
+			}
 			parsed.ColSpan = span
 		}
 	}
@@ -269,6 +275,9 @@ func (tp *TableParser) parseCell(cell tableCellXML) ParsedTableCell {
 	// Parse row span
 	if cell.NumberRowsSpanned != "" {
 		if span, err := strconv.Atoi(cell.NumberRowsSpanned); err == nil && span > 0 {
+			if span > maxTableRowSpan {
+				span = maxTableRowSpan
+			}
 			parsed.RowSpan = span
 		}
 	}
@@ -324,6 +333,13 @@ func (tp *TableParser) parseCellParagraph(p paragraphXML) parsedParagraph {
 
 	return parsed
 }
+
+// Repeat and span counts come from the file; they are bounded so that they
+// cannot size the grid or drive the rendering loops on their own.
+const (
+	maxTableColumns = 1024
+	maxTableRowSpan = 1 << 16
+)
 
 // processRowSpans marks cells that are covered by row spans.
 func (tp *TableParser) processRowSpans(table *ParsedTable) {
